@@ -247,6 +247,12 @@ theorem hardSeq_faithful (cfg : Cfg) (ts : List Tok) :
     (∀ s1 s2 : List Seg, (∀ s ∈ s1, s.wf) → (∀ s ∈ s2, s.wf) → render s1 = render s2 → s1 = s2) :=
   ⟨regions_eq_render cfg _, fun t h => segsAux_plain_mem cfg _ 0 t h, render_inj⟩
 
+/-- The hard tokens the certificate lists outside reorder regions are a SUBSEQUENCE of the hard tokens
+of `mid cfg ts`: their order is the order of the text and none is invented. -/
+theorem hardSeq_in_order (cfg : Cfg) (ts : List Tok) :
+    ((hardSeq cfg ts).filterMap Seg.plain?).Sublist (hards cfg (mid cfg ts)) :=
+  hardSeq_plain_sublist cfg ts
+
 /-- What equal canonical leaf lists of two reorder regions say about their raw leaves: kind 3
 (`#[derive]`): the same list; kinds 1, 2 (`mod x;`, `extern crate`): a permutation; kind 0 (`use`):
 the same set of paths (the formatter drops an import it has already seen). -/
